@@ -122,6 +122,13 @@ class Choices:
             a = draw(shape)
         if not nonneg and signed:
             a -= dt(4) if dt is np.int64 else dt(0.4)  # in place on the fresh buffer: keeps the view structure
+        deg = self.choice(["none"] * 9 + ["zero_slice", "ties", "constant"]) if a.ndim >= 1 and a.size > 1 else "none"
+        if deg == "zero_slice":  # an all-zero last column / slice (zero norms, singular systems)
+            a[..., -1] = 0
+        elif deg == "ties":  # many equal entries (sorting and arg-max ties)
+            a[...] = np.round(a * 2) / 2 if dt is not np.int64 else a // 3
+        elif deg == "constant":  # rank-deficient: every entry the same
+            a[...] = a.flat[0] if a.flat[0] != 0 else 1
         return a
 
     def low_rank(self, shape, rank, nonneg=False, kinds=("c", "f", "tview", "slice")):
